@@ -119,7 +119,7 @@ def r2_filter_dominance(ctx, rep):
     """Decided on the condition-annotated event trace of _add_procedure_calls (early `continue`s contribute negated
     conditions), so one combined test and several separate tests are the same thing."""
     py = ctx.py
-    fn = py.func("FortranContainer._add_procedure_calls")
+    fn = py.ifunc("FortranContainer._add_procedure_calls")      # canonical form: a test hoisted into a local reads like the inline one
     ev = astq.trace(fn)
     idx = {id(e): i for i, e in enumerate(ev)}
     aps = [e for e in ev if e.kind == "call" and call_name(e.node) == "self.calls.append"]
@@ -160,11 +160,30 @@ def r2_filter_dominance(ctx, rep):
             if d is None or not ((isinstance(d, ast.Constant) and d.value is None) or ast.unparse(d).split(".")[-1] == "INTRINSICS"):
                 return False
         return bool(vals) and all(ast.unparse(v).split(".")[-1] == "INTRINSICS" for v in vals)
-    intr = [d for d in negs if isinstance(d, ast.Compare) and len(d.ops) == 1 and isinstance(d.ops[0], ast.In)
-            and is_intrinsics(d.comparators[0]) and is_last_of_chain(d.left)]
-    rep.ob("append dominated by the INTRINSICS filter on the last chain element", bool(intr),
-           "`<last element> in INTRINSICS` -> continue precedes the append" if intr else
+    def f_atom(x):
+        # 'intr': the (last element of the) chain is an intrinsic / keyword;  'single': the chain is a plain name, not `a%b`
+        if isinstance(x, ast.Compare) and len(x.ops) == 1 and isinstance(x.ops[0], (ast.In, ast.NotIn)) and \
+                is_intrinsics(x.comparators[0]) and is_last_of_chain(x.left):
+            return ("intr", isinstance(x.ops[0], ast.In))
+        if isinstance(x, ast.Compare) and len(x.ops) == 1 and isinstance(x.left, ast.Call) and call_name(x.left) == "len" and \
+                x.left.args and isinstance(x.left.args[0], ast.Name) and x.left.args[0].id == chain and \
+                isinstance(x.comparators[0], ast.Constant) and x.comparators[0].value in (1, 2):
+            k, op = x.comparators[0].value, type(x.ops[0])
+            table = {(1, ast.Eq): True, (1, ast.NotEq): False, (1, ast.Gt): False, (1, ast.LtE): True, (2, ast.Lt): True, (2, ast.GtE): False}
+            if (k, op) in table:
+                return ("single", table[(k, op)])
+        return None
+    blocked = astq.event_fires(ap, f_atom, {"intr": True, "single": True}) is False
+    rep.ob("append dominated by the INTRINSICS filter on the last chain element", blocked,
+           "a plain name that is an intrinsic / keyword never reaches the append" if blocked else
            "the intrinsic/keyword filter no longer dominates self.calls.append", py.nloc(ap.node))
+    # ... but only a *plain* name can be an intrinsic: in `x%size()` the last element is a type-bound procedure of x, whatever it
+    # is called - the filter must let component references through
+    open_ = astq.event_fires(ap, f_atom, {"intr": True, "single": False}) is not False
+    rep.ob("a type-bound procedure named like an intrinsic is still recorded", open_,
+           "the filter is restricted to chains of one element" if open_ else
+           "the intrinsic filter looks at the last element of every chain: `n = x%size()` / `call obj%index(i)` are dropped although "
+           "they call the type's own binding - the call and its edge are missing from the call graph", py.nloc(ap.node))
     # de-duplication: the probe is the last element, compared with the last element of every recorded chain
     dd = [d for d in negs if "self.calls" in ast.unparse(d)]
     good = False
@@ -388,6 +407,29 @@ def r7_dependency_closure(ctx, rep):
     c06.r3_dependency_order(ctx, rep)
 
 
+def r8_format_statements(ctx, rep):
+    """A FORMAT statement is a label, the keyword and a parenthesised list - with or without a blank in front of the parenthesis
+    (R1001).  Its content is full of `name(`-like text (`3(i3, 1x)`, `f8.3`), so the statement has to be taken out before the call
+    patterns see it: every `label FORMAT (...)` / `label FORMAT(...)` must be matched by the pattern that does that.  Decided as a
+    language inclusion."""
+    py, rx = ctx.py, ctx.rx
+    key = next((k for k in ctx.regexes if k.split(".")[-1] == "FORMAT_RE"), None)
+    if key is None:
+        raise AnalysisError("FORMAT_RE not found")
+    pat, flags, node, _ = ctx.regexes[key]
+    cs = ctx.cascade
+    how = "match"
+    ref = rx.full(r"[0-9]+ +[Ff][Oo][Rr][Mm][Aa][Tt] *\([^\n]*\)", 0)
+    try:
+        w = rx.subset_witness(ref, rx.match_lang(pat, flags))
+    except rx.Unsupported as e_:
+        raise AnalysisError(f"FORMAT_RE not understood: {e_}")
+    rep.ob("FORMAT_RE matches every labelled FORMAT statement", w is None,
+           "label, FORMAT, optional blanks, parenthesised list" if w is None else
+           f"`{w}` is a FORMAT statement that the pattern does not match: it goes on to the call patterns, and a repeat count in front "
+           f"of a group (`3(i3)`) is recorded as a call of a procedure named `3`", py.nloc(node), witness=w)
+
+
 RULES = [
     RuleSpec("C08.R5", r5_external_and_semicolons, "EXTERNAL handling order; exact `;` splitting (shared with C02.R3)", floor=2),
     RuleSpec("C08.R1", r1_not_scanned, "statements that must not be scanned", floor=15),
@@ -397,4 +439,5 @@ RULES = [
     RuleSpec("C08.R6", r6_association_scoping_and_pushback, "ASSOCIATE scoping and statement order on ;-lines", floor=3),
     RuleSpec("C08.R6", r6_protected_arrays_resolve, "protected variables are exported, so their element references resolve (shared with C06.R2)", floor=7),
     RuleSpec("C08.R7", r7_dependency_closure, "modules are correlated after everything nested procedures use (shared with C06.R3)", floor=5),
+    RuleSpec("C08.R8", r8_format_statements, "labelled FORMAT statements are recognised with or without a blank before the parenthesis", floor=1),
 ]
